@@ -63,7 +63,7 @@ var descMuts = []string{"exact", "exact", "exact", "wrongdigest", "neg1", "zero"
 // "bytesbuffer": the content sits in a *bytes.Buffer that the caller re-uses (resets
 // and refills) as soon as the push has returned
 var readerKinds = []string{"whole", "whole", "bytewise", "chunks", "zeroreads", "dataeof", "errat", "short", "long", "long", "corrupt", "bytesbuffer"}
-var sinks = []string{"readall", "fetchall", "verifyreader", "memory", "oci-storage", "oci-store", "file-named", "file-unnamed", "limit", "copygraph"}
+var sinks = []string{"readall", "fetchall", "verifyreader", "memory", "oci-storage", "oci-store", "file-named", "file-unnamed", "limit", "copygraph", "copyref"}
 
 func genCase(t *rapid.T) Case {
 	c := Case{Seed: rapid.IntRange(0, 9).Draw(t, "seed")}
@@ -86,7 +86,7 @@ func genCase(t *rapid.T) Case {
 	}
 	c.Sink = rapid.SampledFrom(sinks).Draw(t, "sink")
 	c.DescMut = rapid.SampledFrom(descMuts).Draw(t, "descMut")
-	if c.DescMut == "maxint" && (c.Sink == "readall" || c.Sink == "fetchall" || c.Sink == "memory" || c.Sink == "file-unnamed" || c.Sink == "limit" || c.Sink == "copygraph") {
+	if c.DescMut == "maxint" && (c.Sink == "readall" || c.Sink == "fetchall" || c.Sink == "memory" || c.Sink == "file-unnamed" || c.Sink == "limit" || c.Sink == "copygraph" || c.Sink == "copyref") {
 		// these sinks allocate Size bytes by design (documented ReadAll behaviour)
 		c.DescMut = "2len"
 	}
@@ -118,7 +118,7 @@ func genCase(t *rapid.T) Case {
 	if c.Sink == "limit" {
 		c.Limit = rapid.IntRange(-1, 1).Draw(t, "limit")
 	}
-	if c.Sink == "copygraph" {
+	if c.Sink == "copygraph" || c.Sink == "copyref" {
 		c.AsMan = rapid.Bool().Draw(t, "asManifest")
 	}
 	switch c.Sink {
@@ -355,7 +355,7 @@ func runCaseInner(c Case) (res vt.Result, fail *vt.Fail) {
 	b := gen.BlobBytes(c.Seed, c.Size)
 	mt := gen.MTOctet
 	var cfgBlob []byte
-	if c.Sink == "copygraph" && c.AsMan {
+	if (c.Sink == "copygraph" || c.Sink == "copyref") && c.AsMan {
 		cfgBlob = []byte("{}")
 		m := ocispec.Manifest{MediaType: gen.MTImage, Config: ocispec.Descriptor{MediaType: gen.MTConfig, Digest: digest.FromBytes(cfgBlob), Size: 2}, Layers: []ocispec.Descriptor{}}
 		m.SchemaVersion = 2
@@ -463,6 +463,32 @@ func runCaseInner(c Case) (res vt.Result, fail *vt.Fail) {
 				return res, vt.Failf("C05/visible-after-failed-push", "CopyGraph failed (%v) but the destination reports the node as existing", err)
 			}
 		}
+	case "copyref":
+		// Copy by reference from a source that can fetch by reference: the root
+		// travels through the reference-fetching side of the caching wrapper
+		src := &lyingRefSource{lyingSource{desc: desc, mk: mk, cfg: cfgBlob}}
+		dst := memory.New()
+		got, err := oras.Copy(ctx, src, "v1", dst, "v1", oras.DefaultCopyOptions)
+		ok, _ := dst.Exists(ctx, desc)
+		if err == nil {
+			if !v.prefixOK {
+				return res, vt.Failf(keyFor("store-accepts", c, desc), "Copy by reference from a lying source succeeded for desc{%s size=%d}, delivered %d bytes (%s)", desc.Digest, desc.Size, len(delivered), spec.Kind)
+			}
+			if !ok || got.Digest != desc.Digest {
+				return res, vt.Failf("C05/copy-success-but-absent", "Copy returned nil (root %s) but the destination does not hold the node", got.Digest)
+			}
+			back, ferr := gen.ReadBack(ctx, dst, desc)
+			if ferr != nil || !bytes.Equal(back, v.want) {
+				return res, vt.Failf("C05/visible-content-mismatch", "destination holds %d bytes (err %v) that are not the content the descriptor names", len(back), ferr)
+			}
+		} else {
+			if v.exact {
+				return res, vt.Failf("C05/store-rejects-good", "Copy by reference failed on matching content (%s): %v", spec.Kind, err)
+			}
+			if ok {
+				return res, vt.Failf("C05/visible-after-failed-push", "Copy by reference failed (%v) but the destination reports the node as existing", err)
+			}
+		}
 	default:
 		return runStoreSink(ctx, c, desc, v, b, spec, mk, res)
 	}
@@ -496,6 +522,17 @@ func (l *lyingSource) Fetch(ctx context.Context, target ocispec.Descriptor) (io.
 
 func (l *lyingSource) Exists(ctx context.Context, target ocispec.Descriptor) (bool, error) {
 	return true, nil
+}
+
+// lyingRefSource additionally resolves and fetches the node by reference.
+type lyingRefSource struct{ lyingSource }
+
+func (l *lyingRefSource) Resolve(ctx context.Context, ref string) (ocispec.Descriptor, error) {
+	return l.desc, nil
+}
+
+func (l *lyingRefSource) FetchReference(ctx context.Context, ref string) (ocispec.Descriptor, io.ReadCloser, error) {
+	return l.desc, io.NopCloser(l.mk()), nil
 }
 
 func runStoreSink(ctx context.Context, c Case, desc ocispec.Descriptor, v verdict, b []byte, spec ReaderSpec, mk func() io.Reader, res vt.Result) (vt.Result, *vt.Fail) {
